@@ -35,5 +35,17 @@ Proof.
     + pose proof (proj2 (last_with_key_In _ _ _ Hx)) as Hk. apply env_preserved.
       * rewrite Hk. exact Hx.
       * rewrite Hk. now apply last_with_key_none_inv.
-  - apply forallb_forall. intros e He. apply mem_bytes_In. apply in_or_app. now apply env_no_junk.
+  - apply forallb_forall. intros x Hx. cbn [survivor flat_map]. rewrite app_nil_r, orb_false_r.
+    destruct b as [bl|].
+    + pose proof (env_by_key _ _ _ Hx) as H. rewrite last_with_key_app in H.
+      destruct (last_with_key (key_of x) (olist o)) as [y|] eqn:Eo.
+      * injection H as ->. apply last_with_key_In in Eo. destruct Eo as [Eo _].
+        apply orb_true_iff. right. rewrite andb_true_r. now apply mem_bytes_In.
+      * apply orb_true_iff. left. apply andb_true_iff. split.
+        -- apply mem_bytes_In. now apply last_with_key_In in H.
+        -- apply negb_true_iff. unfold has_key. destruct (existsb _ (olist o)) eqn:Ex; [|reflexivity].
+           apply existsb_exists in Ex. destruct Ex as [y [Hy Hk]]. apply bytes_eqb_eq in Hk.
+           exfalso. exact (last_with_key_none_inv _ _ Eo y Hy Hk).
+    + apply orb_true_iff. right. rewrite andb_true_r. apply mem_bytes_In.
+      destruct (env_no_junk _ _ _ Hx) as [[]|H]. exact H.
 Qed.
